@@ -198,3 +198,65 @@ package runtime
 //@ ensures C05 len: result.len == utf8_enc_len(c)
 //@ ensures C05 bytes: forall j int :: 0 <= j && j < result.len ==> result[j] == utf8_enc_byte(c, j)
 //@ modifies nothing
+
+// ---------------------------------------------------------------------------
+// z_chan.go — monitor reasoning: everything below holds under every
+// interleaving, given mutual exclusion of p.mutex. cs_old(e)/cs_new(e): value
+// of e when the critical section that committed the operation was entered /
+// left. chanbuf(p): the buffer address fixed by NewChan. Buffered paths only
+// (p.cap > 0); the unbuffered rendezvous and select are not decided.
+
+//@ ghostfn chanbuf(word) word
+
+//@ macro chaninv(p, v, es): p.cap >= 0 && 0 <= p.len && p.len <= p.cap && (p.cap > 0 ==> 0 <= p.getp && p.getp < p.cap && p.data == chanbuf(p)) && (p.cap == 0 ==> p.len == 0 && (p.getp == 1 && p.data != nil ==> valid(p.data, es) && (v != nil ==> disjoint(p.data, es, v, es))))
+//@ macro chanpre(p, v, eltSize): p != nil && eltSize >= 0 && eltSize < 1<<16 && p.cap >= 0 && p.cap < 1<<28 && (p.cap > 0 ==> valid(chanbuf(p), p.cap*eltSize)) && (v != nil ==> valid(v, eltSize) && (p.cap > 0 ==> disjoint(v, eltSize, chanbuf(p), p.cap*eltSize)))
+//@ macro slotaddr(p, i, eltSize): chanbuf(p) + uintptr(i*eltSize)
+//@ macro inslot(a, p, i, eltSize): slotaddr(p, i, eltSize) <= a && a < slotaddr(p, i, eltSize) + uintptr(eltSize)
+//@ macro inbuf(a, p, eltSize): chanbuf(p) <= a && a < chanbuf(p) + uintptr(p.cap*eltSize)
+
+//@ func notifyOps
+//@ trusted
+//@ modifies array(F!runtime_selectOp!sem)
+
+//@ func ChanLen
+//@ props C10
+//@ arith int
+//@ lock Chan.mutex protects p.getp, p.len, p.close, p.sends, p.selsends, p.sops, p.data
+//@ lock Chan.mutex invariant inv: chaninv(p, nil, 0)
+//@ ensures C10 nil: p == nil ==> n == 0
+//@ ensures C10 len: p != nil ==> n == cs_old(p.len) && 0 <= n && n <= p.cap
+//@ modifies nothing
+
+//@ func ChanCap
+//@ props C10
+//@ ensures C10 cap: (p == nil ==> result == 0) && (p != nil ==> result == p.cap)
+//@ modifies nothing
+
+//@ func ChanSend
+//@ props C10 C03
+//@ arith int
+//@ opt panic_writes allowed
+//@ lock Chan.mutex protects p.getp, p.len, p.close, p.sends, p.selsends, p.sops, p.data, bytes(chanbuf(p), p.cap*eltSize)
+//@ lock Chan.mutex invariant inv: chaninv(p, v, eltSize)
+//@ requires chanpre(p, v, eltSize) && v != nil
+//@ loop 1 invariant inv: chaninv(p, v, eltSize) && p.cap == 0
+//@ loop 2 invariant inv: chaninv(p, v, eltSize) && p.cap > 0
+//@ ensures C03 closed-send-does-not-return: !cs_old(p.close)
+//@ ensures_panic C03 panics-only-when-closed: cs_old(p.close)
+//@ ensures C10 result: result
+//@ ensures C10 sent-header: p.cap > 0 && result ==> cs_new(p.len) == cs_old(p.len) + 1 && cs_new(p.getp) == cs_old(p.getp) && cs_new(p.close) == cs_old(p.close) && cs_old(p.len) < p.cap
+//@ ensures C10 sent-slot: p.cap > 0 && result ==> forall a uintptr :: inslot(a, p, (cs_old(p.getp) + cs_old(p.len)) % p.cap, eltSize) ==> cs_new(mem[a]) == cs_old(mem[v + (a - slotaddr(p, (p.getp + p.len) % p.cap, eltSize))])
+//@ ensures C10 sent-others: p.cap > 0 && result ==> forall a uintptr :: inbuf(a, p, eltSize) && !inslot(a, p, (cs_old(p.getp) + cs_old(p.len)) % p.cap, eltSize) ==> cs_new(mem[a]) == cs_old(mem[a])
+//@ ensures C10 not-sent: p.cap > 0 && !result ==> cs_new(p.len) == cs_old(p.len) && cs_new(p.getp) == cs_old(p.getp) && forall a uintptr :: inbuf(a, p, eltSize) ==> cs_new(mem[a]) == cs_old(mem[a])
+//@ modifies everything
+
+//@ func ChanClose
+//@ props C10 C03
+//@ arith int
+//@ opt implicit_panics allowed
+//@ lock Chan.mutex protects p.getp, p.len, p.close, p.sends, p.selsends, p.sops, p.data
+//@ lock Chan.mutex invariant inv: chaninv(p, nil, 0)
+//@ ensures_panic C03 panics-only-when-nil-or-closed: p == nil || cs_old(p.close)
+//@ ensures C03 closed-close-does-not-return: p != nil && !cs_old(p.close)
+//@ ensures C10 closed: cs_new(p.close) && cs_new(p.len) == cs_old(p.len) && cs_new(p.getp) == cs_old(p.getp)
+//@ modifies everything
